@@ -162,7 +162,7 @@ ASIGS = {
     'low': ['int'], 'high': ['int'], 'succ': ['int'], 'level': ['int'], 'varof': ['int'],
     'ref': ['int'], 'negated': ['int'], 'len': ['int'], 'int': ['int'], 'drop': ['int'],
     'gc': [], 'reorder': ['odnn'], 'configure': ['obool'], 'set_last_len': ['oint'],
-    'set_trig': ['oint'], 'copy': ['int', 'int'], 'shutdown': [],
+    'set_trig': ['oint'], 'set_max_nodes': ['oint'], 'copy': ['int', 'int'], 'shutdown': [],
     'add_expr': ['spell'], 'add_expr_text': ['text'], 'add_expr_lr': ['text'], 'to_expr': ['int'],
     'assert_consistent': [],
     'copy_bdds_from': ['int', 'lint'],
